@@ -72,7 +72,9 @@ def tainted_names(fn: ast.AST, clean_params: Set[str] = frozenset(), inherited: 
     t: Set[str] = set(inherited)
     a = fn.args
     import re as _re
-    scalar = _re.compile(r"^(Optional\[)?(bool|int|float|str|bytes)(\])?$|^(bool|int|float|str|bytes) \| None$|^None \| (bool|int|float|str|bytes)$")
+    # numbers, flags, strings and code objects are not the observed program's *state*: holding one keeps no frame, generator or
+    # manager alive (a code object is the function's immutable code)
+    scalar = _re.compile(r"^(Optional\[)?(bool|int|float|str|bytes|types\.CodeType|CodeType)(\])?$|^(bool|int|float|str|bytes|types\.CodeType|CodeType) \| None$|^None \| (bool|int|float|str|bytes|types\.CodeType|CodeType)$")
     for x in a.posonlyargs + a.args + a.kwonlyargs:
         if x.arg not in clean_params and x.arg not in ("self", "cls"):
             ann = ast.unparse(x.annotation).strip("'\"") if x.annotation is not None else ""
@@ -142,6 +144,8 @@ def fresh_names(fn: ast.AST) -> Dict[str, ast.AST]:
                 out[n.targets[0].id] = n
             elif isinstance(f, ast.Name) and f.id == "iter":
                 out[n.targets[0].id] = n
+            elif isinstance(f, ast.Name) and f.id in ("extract_iter",):
+                out[n.targets[0].id] = n  # the engine's own generator: created here, never a stack item
     # objects obtained from a fresh object (method call on it, possibly through typing.cast)
     changed = True
     while changed:
